@@ -9,8 +9,8 @@ from props import _worldfam as F
 
 PID = 'C13'
 GENERATORS = ['consts', 'fleet_table']
-LEAN_TARGETS = ['EosProofs.Props.C13', 'EosProofs.Props.C13World', 'EosProofs.Lemmas.FleetTable']
-DRIVERS = ['drv_world']
+LEAN_TARGETS = ['EosProofs.Props.C13', 'EosProofs.Props.C13World', 'EosProofs.Lemmas.FleetTable', 'EosProofs.Props.C11Proj']
+DRIVERS = ['drv_world', 'drv_keyed']
 TRUSTED = F.WORLD_TRUSTED
 RULE = ('(1) exhaustive: all 24 orders of {put target ship on its fit, add projecting module, activate it, set target} and '
         'all 120 orders of {ship A, ship B, A joins fleet, B joins fleet, add active booster on A}, each followed by all '
@@ -29,7 +29,7 @@ CLAUSES = {
         'additionally tied by the regenerated complete table EosGen.FleetTable (real code run on every world of 1-3 fits x '
         'fleet A / B / none x ship / no ship, booster on fit 1 started last (outside K1), one template per filter kind, every '
         'item): fleet_table_matches_spec, fleet_table_buff_modifier, fleet_table_gather_matches, fleet_table_complete'),
-    're-targeting / stopping / joining / leaving update immediately': 'the spec is a function of the current configuration; impl tied by histories; machine-level: C01',
+    're-targeting / stopping / joining / leaving update immediately': 'register level: the projector->targets / target->projectors maps of projection.py are, after every history of apply/unapply calls, exactly the abstract relation and converse to each other (C11Proj.proj_run_refines, conv_run; per-call differential on the real ProjectionRegister); the spec is a function of the current configuration; impl tied by histories; machine-level: C01',
     'outcome independent of set-up order': 'proved at message level: C13World.setup_order_irrelevant_world (two legal message histories ending in settled states of the same configuration observe the same values, both the from-scratch table), retarget_immediate_world; exhaustive order enumeration on impl; K1 orders are a known finding',
 }
 LEVEL_TEXT = ('Lean: exact characterisation of the affected set of projected modifiers and fleet boosts in the spec, and '
@@ -363,6 +363,9 @@ def _fleet_orders(rep):
 def correspondence(ctx):
     rep = ctx.report
     rep.rules.append(RULE)
+    # register level: the real ProjectionRegister against the Lean pair model (C11Proj.conv_run, proj_run_refines)
+    from props import c11 as _c11
+    _c11._projpair(ctx, rep, ctx.n(300, 6000), label='c13-projpair')
 
     def on_history(seed, pname, p, h):
         if h['crash'] is None:
@@ -424,8 +427,12 @@ def search(ctx, broken):
 def replay(path):
     import json
     p = C.VERIF / path if not str(path).startswith('/') else path
-    v = json.load(open(p)).get('violation') or {}
+    data = json.load(open(p))
+    v = data.get('violation') or (data.get('broken') or [{}])[0].get('detail') or {}
     case = v.get('case') if isinstance(v, dict) else None
+    if isinstance(case, dict) and 'keyed_ops' in case:
+        from props import c11 as _c11
+        return _c11._replay_keyed(case['keyed_ops'])
     if isinstance(case, dict) and 'fleet_table' in case:
         from gen import fleet_table as FT
         print(json.dumps(v, indent=1)[:3000])
